@@ -219,7 +219,10 @@ pub fn eval_doc(doc: &Doc) -> (Vec<Failure>, u64, std::collections::BTreeMap<Str
                 let sub = if class == PosClass::StatementStart && matches!(prev.as_str(), ")" | "else") { ":branch-of-if-or-while" } else { "" };
                 fails.push(Failure {
                     key: format!("completion:{:?}{}:{}", class, sub, what),
-                    case: doc.case(json!({"method": "completion", "offset": p})),
+                    case: doc.case(json!({"method": "textDocument/completion", "offset": p, "position": lsptext::position(doc.text(), p), "class": format!("{:?}", class),
+                        "expected": {"VARIABLE": if class == PosClass::TopLevel || class == PosClass::TypePosition { Value::Null } else { json!(doc.sem.locals.get(decl).map(|l| l.keys().cloned().collect::<BTreeSet<_>>()).unwrap_or_default()) },
+                                     "FUNCTION": if class == PosClass::StatementStart { json!(procs) } else { Value::Null },
+                                     "STRUCT": if class == PosClass::TypePosition { json!(types) } else { Value::Null }}})),
                     detail: format!("byte {} between {:?} and {:?} ({:?}): {}", p, prev, next, class, d),
                 });
             }
@@ -275,11 +278,29 @@ pub fn run(tier: Tier) -> Report {
 
 pub fn replay(case: &Value) -> Vec<Failure> {
     let text = case["text"].as_str().unwrap_or("");
+    let rq = &case["request"];
     let mut s = Session::new(false);
     s.open(URI, text);
+    let id = rq["position"].as_array().map(|p| s.pos_request("textDocument/completion", URI, p[0].as_u64().unwrap_or(0) as u32, p[1].as_u64().unwrap_or(0) as u32));
     let o = s.run();
-    match o.error.or(o.frame_error) {
-        Some(e) => vec![Failure { key: "completion:error".into(), case: case.clone(), detail: e }],
-        None => vec![],
+    if let Some(e) = o.error.clone().or(o.frame_error.clone()) {
+        return vec![Failure { key: "completion:error".into(), case: case.clone(), detail: e }];
     }
+    let Some(id) = id else { return vec![] };
+    let got = o.responses().get(&id).and_then(|r| r.get("result").cloned()).unwrap_or(Value::Null);
+    let items: Vec<(String, &'static str)> = got.as_array().map(|a| a.iter().map(|i| (i["label"].as_str().unwrap_or("").to_string(), kind_name(i["kind"].as_u64().unwrap_or(0)))).collect()).unwrap_or_default();
+    let mut out = vec![];
+    for kind in ["VARIABLE", "FUNCTION", "STRUCT"] {
+        if let Some(exp) = rq["expected"][kind].as_array() {
+            let want: BTreeSet<String> = exp.iter().filter_map(|v| v.as_str().map(|s| s.to_string())).collect();
+            let have: BTreeSet<String> = items.iter().filter(|(_, k)| *k == kind).map(|(l, _)| l.clone()).collect();
+            if want != have {
+                out.push(Failure { key: format!("completion:{}", kind), case: case.clone(), detail: format!("{} items {:?}, expected {:?}", kind, have, want) });
+            }
+        }
+    }
+    if rq["class"] == json!("TopLevel") && items.iter().any(|(l, k)| !(matches!(*k, "KEYWORD" | "SNIPPET") && matches!(l.as_str(), "proc" | "type" | "main"))) {
+        out.push(Failure { key: "completion:TopLevel".into(), case: case.clone(), detail: format!("{:?}", items) });
+    }
+    out
 }
